@@ -19,7 +19,7 @@ BODIES = [b'y=2\n', b'function _draw()\n cls() -- c\n print("t")\nend\n', b'', b
 def _mk(item):
     k, rec, body = item
     hdr = bytes(rec['s'])
-    if not lexref.in_domain(hdr, rec['toks']):
+    if not rec.get('fixed') and not lexref.in_domain(hdr, rec['toks']):
         return ('ood', None, None)
     ncom = 0
     for t in rec['toks']:
@@ -47,7 +47,17 @@ def run(ctx):
     rnd = random.Random(ctx.seed)
     fixture = open(os.path.join(core.VERIF, 'fixtures', 'lua', 'cart_test_gol_p8.lua'), 'rb').read()
     bodies = BODIES + [fixture]
-    items = [(k, rec, bodies[k % len(bodies)]) for k, rec in enumerate(recs)]
+    items = [(k, rec, (fixture if k % 40 == 0 else BODIES[k % len(BODIES)])) for k, rec in enumerate(recs)]      # (the whole token streams are judged: the long body only now and then)
+    # "later comments may be dropped but never turn into code, and code never turns into a comment": generated programs in
+    # the layouts that put operators next to each other (a/-b, a- -b, x//c) and that scatter comments, behind a two-line header
+    from . import c01
+    from .. import progs
+    sets = [('expr<=7', progs.generate(ctx, 'expr', 7)), ('all<=5', progs.generate(ctx, 'all', 5))] if ctx.quick else c01.gen_sets(ctx)
+    pcases = minify.program_cases(ctx, rnd, sets, ('tight', 'comments', 'tight', 'lines'))
+    step = max(1, len(pcases) // (1200 if ctx.quick else 12000))
+    hdr2 = {'s': list(b'-- t\n//b\n'), 'toks': [{'k': 'com'}, {'k': 'nl'}, {'k': 'com'}, {'k': 'nl'}], 'fixed': True}
+    picked = pcases[::step] + minify.operator_adjacency_cases()
+    items += [(k, hdr2, src) for k, (name, src, _) in enumerate(picked)]
     traces, meta = [], []
     for st, a, b in core.parmap(_mk, items):
         if st == 'ood':
@@ -75,7 +85,7 @@ def run(ctx):
             ctx.out_of_domain += 1
         else:
             hdr_shape = lexref.shape(src[:24])
-            ctx.violation('%s/%s' % (vv[0], hdr_shape), 'luamin output does not start with the header comments (%s): %r -> %r' % (vv[0], src[:40], out[:40]),
+            ctx.violation('%s/%s' % (vv[0], hdr_shape), 'luamin output rejected by the C19 clauses (%s: header = the first two comments verbatim on their own lines at the top; kind / end-mismatch = code and comments changed places further down): %r -> %r' % (vv[0], src[:40], out[:40]),
                           {'kind': 'hdr', 'src': list(src)})
     ctx.exhaustive = True
     if meta:
